@@ -84,6 +84,7 @@ type Frame struct {
 	unescaped map[string]bool // alloc refs (term text) that have not escaped
 	nullable map[ssa.Value]bool
 	calleeTypeArgs map[string]types.Type // set while the contract of a generic callee is applied
+	calleeFn       *ssa.Function         // set while the contract of a statically known callee is applied
 	inDefer        bool                  // a deferred call is being executed (at a return)
 }
 
